@@ -78,8 +78,9 @@ func engineCases(g *Gen, n int, taint, hostile bool) []*Case {
 			toks = g.Taint(rec, nil)
 		}
 		engineStreams, hopStreams = true, regularRecipe(rec)
+		hopStreamsOff = !hopStreams
 		c := buildCase(fmt.Sprintf("e%d", i), rec, nil, nil)
-		engineStreams, hopStreams = false, false
+		engineStreams, hopStreams, hopStreamsOff = false, false, false
 		c.Toks = toks
 		cases = append(cases, c)
 	}
@@ -319,6 +320,10 @@ func runProperty(res *Result, prop, tier string, seed uint64, driver, replay str
 		runC16(res)
 		return
 	}
+	if prop == "C18" {
+		runC18(res, tier, seed)
+		return
+	}
 	if prop == "C20" {
 		runC20(res, tier, seed, driver)
 		return
@@ -341,18 +346,9 @@ func runProperty(res *Result, prop, tier string, seed uint64, driver, replay str
 	case "C09":
 		cases = append(cases, engineCases(g, n/3, false, false)...)
 	case "FMT":
-		// formatting-engine tie: every generator family, then the same families over the
+		// formatting-engine tie only: every generator family, half of the cases over the
 		// hostile alphabet (markers, newlines, NUL, invalid UTF-8, empty strings)
-		cases = append(cases, pairCases(g)...)
-		cases = append(cases, genCases(g, n/2)...)
-		cases = append(cases, annotCases(g, n/4)...)
-		cases = append(cases, multiCases(g, n/4)...)
-		g.hostile = true
-		for _, c := range append(append(genCases(g, n/2), annotCases(g, n/4)...), multiCases(g, n/4)...) {
-			c.ID = "h" + c.ID
-			cases = append(cases, c)
-		}
-		g.hostile = false
+		cases = append(cases, engineCases(g, n*2, false, true)...)
 	case "C07":
 		cases = append(cases, hiddenCases(g, n)...)
 	case "C04":
